@@ -1078,6 +1078,8 @@ class C16(TreeSpec):
     def gen(self, r, tier, i):
         if i % 2:
             return drive_engine.gen_bankrupt_plan(r, tier)
+        if i % 16 == 6:
+            return drive_tree.gen_worthless_sub_plan(r, tier)
         return drive_tree.gen_plan(r, "bankrupt" if i % 4 else "fi", tier)
 
     def run(self, bt, plan):
